@@ -51,14 +51,14 @@ def try_(pid, v, checks):
     try:
         if rc == 0:
             for c in checks:
-                t = time.time(); rc, o = sh(f"./check {c} quick", cwd="/verif", timeout=3000)
+                t = time.time(); rc, o = sh(f"./check {c} quick", cwd=os.environ.get("VERIF_DIR", "/verif"), timeout=3000)
                 viol = [l for l in o.splitlines() if l.startswith("VIOLATION")]
                 msg = [l for l in o.splitlines() if "violation:" in l][:2]
                 res["checks"][c] = {"exit": rc, "violation": bool(viol), "wall": round(time.time() - t, 1), "msg": msg}
     finally:
         sh("git checkout -- .", cwd="/repo")
         # drop replay files written while the change was applied
-        sh("git clean -fdq replays && git checkout -- evidence", cwd="/verif")
+        sh("git clean -fdq replays && git checkout -- evidence", cwd=os.environ.get("VERIF_DIR", "/verif"))
     return res
 if __name__ == "__main__":
     mode, pid, v = sys.argv[1], sys.argv[2], sys.argv[3]
